@@ -183,4 +183,5 @@ Qed.
 
 (** Push [D2R] through an expression built from the operations above. *)
 Ltac d2r := rewrite ?dsgn_correct, ?dcmp_correct;
-  rewrite ?D2R_add, ?D2R_sub, ?D2R_mul, ?D2R_opp, ?D2R_zero, ?D2R_one, ?D2R_half, <- ?of_float_correct.
+  repeat first [ rewrite D2R_add | rewrite D2R_sub | rewrite D2R_mul | rewrite D2R_opp
+               | rewrite D2R_zero | rewrite D2R_one | rewrite D2R_half | rewrite <- of_float_correct ].
